@@ -52,7 +52,7 @@ SPEC = {'id': 'C16',
                'once per peer connection (a second data channel on the same connection is outside the property); '
                'pion/websocket/copyLoop internals enter as the outcome of handler labels; time is abstracted. The '
                'binary-level clause (-capacity reaches the token pool) is a skeleton obligation on proxy/main.go and '
-               'Start, the binary itself is not run. The C06 clause for the proxy side (relay URL outside the pattern is never answered nor '
+               'Start; the proxy binary itself is not run, but the real SnowflakeProxy.Start() loop is run in a child process against a scripted broker in the thorough tier (load reported by its polls). The C06 clause for the proxy side (relay URL outside the pattern is never answered nor '
                'dialed) is checked here differentially against the C06 model fed with url.Parse output.',
  'design_ref': 'DESIGN.md §5.16 (and §5.6 for the relay-URL clause)',
  'trusted': ['Go runtime modelled: buffered channel of capacity N (send blocks when full, receive when empty, FIFO waiters), '
